@@ -131,6 +131,10 @@ def impl(case):
     shape = tuple(case["shape"])
     xs = np.array([p[0] for p in pts], dtype=float).reshape(shape)
     ys = np.array([p[1] for p in pts], dtype=float).reshape(shape)
+    if case.get("layout") == "F" and len(shape) >= 2:
+        xs, ys = np.asfortranarray(xs), np.asfortranarray(ys)          # same values, column-major memory
+    elif case.get("layout") == "T" and len(shape) == 2:
+        xs, ys = np.ascontiguousarray(xs.T).T, np.ascontiguousarray(ys.T).T   # a transposed view of a C array
     res = {}
     try:
         r = rs(xs, ys)
@@ -418,6 +422,7 @@ def gen(rng, tier):
         sel = [[l, C.q2w(rng.choice([1, 2, -1, Fraction(1, 2)])), rng.randint(-9, 9), C.q2w(rng.choice([1, 2, 4, -2])), rng.randint(-9, 9)] for l in have]
         case = {"kind": "selector", "mapper": mapper, "sel": sel, "undef": rng.choice(["nan", "nan", -9999.25, 12345.0625]),
                 "set_input": rng.sample([0, 1, 2, 3, 4, 9], 3)}
+        case["layout"] = rng.choice(["C", "C", "F", "T"])
         if rng.random() < 0.25:
             case["nout"] = 1
         if rng.random() < 0.25:
